@@ -1456,8 +1456,16 @@ func (self *BinaryServerProtocol) ProcessCommad(command protocol.ICommand) error
 				self.stream.protocol = self
 			}
 			self.totalCommandCount += serverProtocol.totalCommandCount
-			serverProtocol.UnInitLockCommand()
-			serverProtocol.closed = true
+			if err == AGAIN {
+				serverProtocol.UnInitLockCommand()
+				serverProtocol.closed = true
+				return err
+			}
+			// the connection is ending: the text session ends the way a text connection does (its wills
+			// run, its session and proxies are released); the stream stays with this protocol, which closes it
+			serverProtocol.totalCommandCount = 0
+			serverProtocol.stream = nil
+			_ = serverProtocol.Close()
 			return err
 
 		case protocol.COMMAND_PING:
@@ -2414,8 +2422,16 @@ func (self *TextServerProtocol) ProcessCommad(command protocol.ICommand) error {
 				self.stream.protocol = self
 			}
 			self.totalCommandCount += serverProtocol.totalCommandCount
-			serverProtocol.UnInitLockCommand()
-			serverProtocol.closed = true
+			if err == AGAIN {
+				serverProtocol.UnInitLockCommand()
+				serverProtocol.closed = true
+				return err
+			}
+			// the connection is ending: the text session ends the way a text connection does (its wills
+			// run, its session and proxies are released); the stream stays with this protocol, which closes it
+			serverProtocol.totalCommandCount = 0
+			serverProtocol.stream = nil
+			_ = serverProtocol.Close()
 			return err
 
 		case protocol.COMMAND_PING:
